@@ -48,4 +48,25 @@ def chainMatches : List Range → List Int → Bool
   | r :: rs, c :: w => (r.b ≤ c && c ≤ r.e) && chainMatches rs w
   | _, _ => false
 
+/-! ### The callbacks of `mode.normalizeInputs` and `mode.mergeTransitions` on one state
+
+(Not exercised by the correspondence harness: these two definitions are read off mode.go.) -/
+
+/-- The outgoing range transitions of one automaton state as (label, target) pairs; targets are
+state numbers. Used as a set. -/
+abbrev Trans := List (Range × Nat)
+
+/-- The callback inside `normalizeInputs` for one NFA state: `toStates := Transitions[o]`,
+`Remove(o)`, then for every target `AddTransition(to, a)`, `(to, b)` and, if `c != b`, `(to, c)`. -/
+def relabelSplit (t : Trans) (cb : NormCb) : Trans :=
+  let tgts := (t.filter fun p => p.1 = cb.o).map (·.2)
+  (t.filter fun p => p.1 ≠ cb.o) ++
+    tgts.flatMap fun q => (cb.a, q) :: (cb.b, q) :: (if cb.c ≠ cb.b then [(cb.c, q)] else [])
+
+/-- The callback inside `mergeTransitions` for one DFA state and the group of target `q`:
+`Remove(oa)`, `Remove(ob)`, `AddTransition(q, n)` (`dfa.State.AddTransition` is a map `Put`, which
+replaces an existing entry for `n`). -/
+def relabelMerge (t : Trans) (cb : FlatCb) (q : Nat) : Trans :=
+  (cb.n, q) :: t.filter fun p => p.1 ≠ cb.oa && p.1 ≠ cb.ob && p.1 ≠ cb.n
+
 end Lox.Rang3
